@@ -345,15 +345,6 @@ pub fn gen_program(r: &mut Rng, w: &Weights) -> Case {
             let is_fact = i + 1 == npred || r.chance(2, 5);
             let body = if is_fact { Goal::Nil } else {
                 let n = 1 + r.below(3);
-                // a parenthesised group to the left of a cut, and something after the cut that may fail: the group must not be
-                // entered again (seeded change C02r11: the cut disabled only a plain call on its left)
-                if w.cut > 0 && r.chance(1, 10) {
-                    let k = 2 + r.below(2);
-                    let mut grp = vec![]; for _ in 0..k { grp.push(gen_goal(r, w, &arities, i, 2)); }
-                    let group = if r.chance(2, 3) { Goal::OperatorGoal(Operator::Or(grp)) } else { Goal::OperatorGoal(Operator::And(grp)) };
-                    let after = if r.chance(1, 3) { bip0("fail") } else { gen_goal(r, w, &arities, i, 1) };
-                    Goal::OperatorGoal(Operator::And(vec![group, bip0("!"), after]))
-                } else
                 if n == 1 { gen_goal(r, w, &arities, i, 0) }
                 else { let mut gs = vec![]; for _ in 0..n { gs.push(gen_goal(r, w, &arities, i, 1)); } Goal::OperatorGoal(Operator::And(gs)) }
             };
